@@ -272,10 +272,13 @@ func runWorker(bin, testName string, env map[string]string, timeout time.Duratio
 		<-done
 		return nil, string(out), fmt.Errorf("worker timed out after %v", timeout)
 	}
-	if err != nil {
+	if err != nil && env["VERIF_TOLERATE_EXIT"] == "" {
 		return nil, string(out), fmt.Errorf("worker failed: %v", err)
 	}
 	b, rerr := os.ReadFile(outFile)
+	if rerr != nil && err != nil {
+		return nil, string(out), fmt.Errorf("worker failed: %v", err)
+	}
 	if rerr != nil {
 		return nil, string(out), rerr
 	}
@@ -383,6 +386,9 @@ func doReplay(b *build, path string, print bool) int {
 		fatal(2, "%v", err)
 	}
 	env := map[string]string{"VERIF_MODE": "replay", "VERIF_REPLAY": path, "VERIF_OUT": filepath.Join(b.scratch, "replay.json")}
+	if e.Race {
+		env["VERIF_TOLERATE_EXIT"] = "1"
+	}
 	if print {
 		env["VERIF_PRINT"] = "1"
 	}
@@ -459,6 +465,7 @@ func doCheck(b *build, id, tier string, seed int64, workers int, scale float64) 
 	_ = os.Remove(evPath)
 	a := &agg{stats: map[string]int64{}, hashes: map[uint64]struct{}{}}
 	batchInfo := []map[string]any{}
+	var crashLines []string
 	for bi, bt := range pd.Batches {
 		e, ok := engineByName(bt.Engine)
 		if !ok {
@@ -494,17 +501,52 @@ func doCheck(b *build, id, tier string, seed int64, workers int, scale float64) 
 					"VERIF_OUT": out, "VERIF_REPLAY_DIR": filepath.Join(verif, "replays"), "VERIF_KNOWN": filepath.Join(verif, "known_findings.json"),
 					"GOMAXPROCS": "2",
 				}
+				if e.Race {
+					env["VERIF_TOLERATE_EXIT"] = "1" // the testing package fails a test during which a race was reported
+					env["GORACE"] = "halt_on_error=0"
+				}
 				reps[wi], outs[wi], errs[wi] = runWorker(bin, e.TestName, env, time.Duration(wall)*time.Second+10*time.Minute)
 			}(wi)
 		}
 		wg.Wait()
 		bruns := 0
 		for wi := 0; wi < workers; wi++ {
+			progress := filepath.Join(b.scratch, fmt.Sprintf("out-%d-%d.json.progress", bi, wi))
+			if pb, perr := os.ReadFile(progress); perr == nil && (errs[wi] != nil || reps[wi] == nil || reps[wi].Runs == 0) {
+				// the worker process died in the middle of a run: a crash of the system under test (or of
+				// the harness).  Re-run that seed alone in a fresh process to confirm it.
+				seedStr := strings.TrimSpace(string(pb))
+				crashSeed, _ := strconv.ParseUint(seedStr, 10, 64)
+				rf := map[string]any{"engine": e.Name, "variant": bt.Variant, "property": id, "props": []string{id}, "tier": tier, "seed": crashSeed, "seed_only": true,
+					"violation": map[string]string{"property": id, "invariant": "process-crash", "message": "the run kills the process (runtime fatal error or unrecovered panic); output in the .crash.txt file next to this replay"}}
+				path := filepath.Join(verif, "replays", fmt.Sprintf("%s-%s-%s-crash.json", id, e.Name, seedStr))
+				jb, _ := json.MarshalIndent(rf, "", " ")
+				_ = os.MkdirAll(filepath.Dir(path), 0o755)
+				_ = os.WriteFile(path, jb, 0o644)
+				env := map[string]string{"VERIF_MODE": "replay", "VERIF_REPLAY": path, "VERIF_OUT": filepath.Join(b.scratch, "crash.json"), "VERIF_TOLERATE_EXIT": "1"}
+				_, cout, cerr := runWorker(bin, e.TestName, env, 20*time.Minute)
+				if cerr == nil || !(strings.Contains(cout, "fatal error:") || strings.Contains(cout, "panic:")) {
+					fmt.Fprintln(os.Stderr, outs[wi])
+					fatal(2, "batch %d worker %d died at seed %s but the seed alone does not crash a fresh process: %v", bi, wi, seedStr, errs[wi])
+				}
+				if strings.Contains(cout, "harness trouble") || strings.Contains(cout, "zz_verif") && !strings.Contains(cout, "go.universe.tf/metallb/internal/") {
+					fmt.Fprintln(os.Stderr, cout)
+					fatal(2, "batch %d worker %d: the harness itself crashed at seed %s", bi, wi, seedStr)
+				}
+				_ = os.WriteFile(strings.TrimSuffix(path, ".json")+".crash.txt", []byte(cout), 0o644)
+				fmt.Printf("violation %s/process-crash seed=%s: %s\n", id, seedStr, oneLine(firstFatal(cout), 300))
+				crashLines = append(crashLines, fmt.Sprintf("VIOLATION property=%s replay=%s", id, path))
+				continue
+			}
 			if errs[wi] != nil {
 				fmt.Fprintln(os.Stderr, outs[wi])
 				fatal(2, "batch %d (%s %s) worker %d: %v", bi, bt.Engine, bt.Variant, wi, errs[wi])
 			}
 			r := reps[wi]
+			if r.Runs == 0 {
+				fmt.Fprintln(os.Stderr, outs[wi])
+				fatal(2, "batch %d (%s %s) worker %d performed no run", bi, bt.Engine, bt.Variant, wi)
+			}
 			a.runs += r.Runs
 			bruns += r.Runs
 			a.nontrivial += r.NonTrivial
@@ -555,7 +597,13 @@ func doCheck(b *build, id, tier string, seed int64, workers int, scale float64) 
 		e, _ := engineByName(rfEngine.Engine)
 		bin, _ := b.buildEngine(e)
 		env := map[string]string{"VERIF_MODE": "replay", "VERIF_REPLAY": f.Replay, "VERIF_OUT": filepath.Join(b.scratch, "verify.json")}
+		if e.Race {
+			env["VERIF_TOLERATE_EXIT"] = "1"
+		}
 		r, out, err := runWorker(bin, e.TestName, env, 20*time.Minute)
+		if e.Race && strings.Contains(out, "WARNING: DATA RACE") {
+			_ = os.WriteFile(strings.TrimSuffix(f.Replay, ".json")+".race.txt", []byte(out), 0o644)
+		}
 		if err != nil {
 			fmt.Fprintln(os.Stderr, out)
 			fatal(2, "replay of %s failed: %v", f.Replay, err)
@@ -568,6 +616,7 @@ func doCheck(b *build, id, tier string, seed int64, workers int, scale float64) 
 		violLines = append(violLines, fmt.Sprintf("VIOLATION property=%s replay=%s", id, f.Replay))
 		exit = 1
 	}
+	nviol += len(crashLines)
 	wall := time.Since(start).Seconds()
 	// evidence
 	faults := map[string]int64{}
@@ -633,7 +682,20 @@ func doCheck(b *build, id, tier string, seed int64, workers int, scale float64) 
 	for _, l := range violLines {
 		fmt.Println(l)
 	}
+	for _, l := range crashLines {
+		fmt.Println(l)
+		exit = 1
+	}
 	return exit
+}
+
+func firstFatal(out string) string {
+	for _, l := range strings.Split(out, "\n") {
+		if strings.HasPrefix(l, "fatal error:") || strings.HasPrefix(l, "panic:") {
+			return l
+		}
+	}
+	return "process crash"
 }
 
 func oneLine(s string, n int) string {
